@@ -58,6 +58,77 @@ def elem_gt(a, b):
     return l if a.kind == "Reverse" else g
 
 
+def vec_of(eng, ref):
+    v = eng.deref(ref) if isinstance(ref, Ref) else ref
+    while isinstance(v, Ref):
+        v = eng.deref(v)
+    if not (isinstance(v, Agg) and "items" in v.f):
+        raise E.Unknown("expected a record vector, got " + repr(v)[:60])
+    return v
+
+
+LESS, EQUAL, GREATER = BV((1 << 64) - 1, 64), BV(0, 64), BV(1, 64)
+
+
+def tuple_partial_cmp(eng, st, x, y):
+    """<(A, B) as PartialOrd>::partial_cmp for A, B in {f32, u32}: lexicographic, None on a NaN."""
+    def cmp_terms(p, q):
+        if z3.is_fp(p):
+            return z3.Or(z3.fpIsNaN(p), z3.fpIsNaN(q)), z3.fpLT(p, q), z3.fpEQ(p, q)
+        return z3.BoolVal(False), z3.ULT(p, q), p == q
+    n0, l0, e0 = cmp_terms(x.f[0], y.f[0])
+    n1, l1, e1 = cmp_terms(x.f[1], y.f[1])
+    none = z3.Or(n0, z3.And(e0, n1))
+    less = z3.And(z3.Not(none), z3.Or(l0, z3.And(e0, l1)))
+    equal = z3.And(z3.Not(none), e0, e1)
+    greater = z3.And(z3.Not(none), z3.Not(less), z3.Not(equal))
+    cases = [(none, lambda: mk_option()), (less, lambda: mk_option(Agg("Ordering", LESS, {}))),
+             (equal, lambda: mk_option(Agg("Ordering", EQUAL, {}))),
+             (greater, lambda: mk_option(Agg("Ordering", GREATER, {})))]
+    feas = [(c, mk) for c, mk in cases if eng.feasible(st.pc, c)]
+    outs = []
+    for k, (c, mk) in enumerate(feas):
+        s2 = st if k == len(feas) - 1 else st.clone()
+        outs.append((mk(), c, s2))
+    return outs
+
+
+def sort_step(eng, st, job, last):
+    """Insertion sort of the vector behind job['ref'] with the comparator closure job['f']."""
+    vec = vec_of(eng, job["ref"])
+    items = vec.f["items"]
+    srt = job["sorted"]
+    if last is not None:
+        d = z3.simplify(last.disc) if isinstance(last, Agg) else None
+        if d is None or not z3.is_bv_value(d):
+            raise E.Unknown("comparator returned a non-concrete Ordering")
+        if d.as_long() == LESS.as_long():       # x < sorted[j]: keep scanning to the left
+            job["j"] -= 1
+        else:
+            srt.insert(job["j"] + 1, items[job["i"]])
+            job["i"] += 1
+            job["j"] = len(srt) - 1
+    while job["i"] < len(items):
+        if job["j"] < 0:
+            srt.insert(0, items[job["i"]])
+            job["i"] += 1
+            job["j"] = len(srt) - 1
+            continue
+        return ("call", job["f"], [Ref(Cell(items[job["i"]])), Ref(Cell(srt[job["j"]]))])
+    vec.f["items"] = list(srt)
+    return ("done", one(job["ret"]))
+
+
+def collect_step(eng, st, job, last):
+    if last is not None:
+        job["out"].append(last)
+    k = len(job["out"])
+    if k < len(job["items"]):
+        return ("call", job["f"], [job["items"][k]])
+    return ("done", one(Agg("Vec", None, {"items": list(job["out"])})))
+
+
+
 def heap_pop(eng, st, ref):
     heap = eng.deref(ref)
     items = heap.f["items"]
@@ -144,19 +215,79 @@ def models_for_search(env_roots):
     def _(eng, st, callee, a, ty):
         return M.m_bm_iter_next(eng, st, callee, a, ty)
 
-    # ---- generic growable vectors of records
-    @reg(r"^Vec::<(\(u32, f32\)|Reverse<\(OrderedFloat<f32>, u32\)>)>::(new|with_capacity)$")
+    # ---- generic growable vectors of records (list of symbolic records; lengths concrete per path)
+    REC = r"(\((u32, f32|f32, u32)\)|Reverse<\(OrderedFloat<f32>, u32\)>)"
+
+    @reg(r"^Vec::<" + REC + r">::(new|with_capacity)$")
     def _(eng, st, callee, a, ty):
         return one(Agg("Vec", None, {"items": []}))
 
-    @reg(r"^Vec::<(\(u32, f32\)|Reverse<\(OrderedFloat<f32>, u32\)>)>::push$")
+    @reg(r"^Vec::<" + REC + r">::push$")
     def _(eng, st, callee, a, ty):
         eng.deref(a[0]).f["items"].append(a[1])
         return one(unit())
 
-    @reg(r"^Vec::<\(u32, f32\)>::len$")
+    @reg(r"^Vec::<" + REC + r">::len$|^core::slice::<impl \[" + REC + r"\]>::len$")
     def _(eng, st, callee, a, ty):
-        return one(BV(len(eng.deref(a[0]).f["items"]), 64))
+        return one(BV(len(vec_of(eng, a[0]).f["items"]), 64))
+
+    @reg(r"^Vec::<" + REC + r">::is_empty$|^core::slice::<impl \[" + REC + r"\]>::is_empty$")
+    def _(eng, st, callee, a, ty):
+        return one(z3.BoolVal(len(vec_of(eng, a[0]).f["items"]) == 0))
+
+    @reg(r"^<Vec<" + REC + r"> as Deref(Mut)?>::deref(_mut)?$")
+    def _(eng, st, callee, a, ty):
+        return one(a[0])
+
+    @reg(r"^Vec::<" + REC + r">::truncate$")
+    def _(eng, st, callee, a, ty):
+        n = len(vec_of(eng, a[0]).f["items"])
+        outs = []
+        for s2, k in M.concretize(eng, st, a[1], range(n)):
+            if k is not None:
+                v = vec_of(eng, a[0] if s2 is st else W._ref_in(eng, st, s2, a[0]))
+                v.f["items"] = v.f["items"][:k]
+            outs.append((unit(), None, s2))
+        return outs
+
+    @reg(r"^<\((f32, u32|u32, f32)\) as PartialOrd>::partial_cmp$")
+    def _(eng, st, callee, a, ty):
+        x, y = eng.deref(a[0]), eng.deref(a[1])
+        return tuple_partial_cmp(eng, st, x, y)
+
+    @reg(r"^core::slice::<impl \[" + REC + r"\]>::(sort_unstable_by|sort_by|select_nth_unstable_by)::<")
+    def _(eng, st, callee, a, ty):
+        # Any correct implementation yields the sorted sequence when the comparator is a total
+        # order; insertion sort driven by the real comparator closure is one such implementation
+        # (and a fully sorted slice satisfies select_nth's contract).  A comparator panic ends the path.
+        is_select = "select_nth" in callee
+        vec = vec_of(eng, a[0])
+        n = len(vec.f["items"])
+        if is_select:
+            outs = []
+            for s2, k in M.concretize(eng, st, a[1], range(n)):
+                if k is None:
+                    outs.append((PANIC, None, s2))     # index out of bounds panics
+                    continue
+                r = a[0] if s2 is st else W._ref_in(eng, st, s2, a[0])
+                f = a[2]
+                sub = M.hof_start(eng, s2, sort_step, {"ref": r, "f": f, "sorted": [], "i": 0, "j": -1,
+                                                        "ret": Opaque("select_nth result")})
+                outs.extend((v, c, s3 if s3 is not None else s2) for v, c, s3 in sub)
+            return outs
+        return M.hof_start(eng, st, sort_step, {"ref": a[0], "f": a[1], "sorted": [], "i": 0, "j": -1, "ret": unit()})
+
+    @reg(r"^<Vec<" + REC + r"> as IntoIterator>::into_iter$")
+    def _(eng, st, callee, a, ty):
+        return one(Opaque("ListIter", {"items": list(a[0].f["items"])}))
+
+    @reg(r"^<std::vec::IntoIter<" + REC + r"> as Iterator>::map::<")
+    def _(eng, st, callee, a, ty):
+        return one(Opaque("MapIter", {"items": list(a[0].data["items"]), "f": a[1]}))
+
+    @reg(r"^<(std::iter::)?Map<std::vec::IntoIter<" + REC + r">, \{closure@.*\}> as Iterator>::collect::<Vec<")
+    def _(eng, st, callee, a, ty):
+        return M.hof_start(eng, st, collect_step, {"items": list(a[0].data["items"]), "f": a[0].data["f"], "out": []})
 
     # ---- heaps
     @reg(r"^BinaryHeap::<.*>::with_capacity$")
@@ -376,7 +507,7 @@ def fp_to_float(txt):
     if t == "-oo":
         return float("-inf")
     if t == "NaN":
-        return None
+        return float("nan")
     t = t.replace("+zero", "0.0").replace("-zero", "-0.0")
     m = re.match(r"^(-?[0-9.]+)(?:\*\(2\*\*(-?\d+)\))?$", t)
     if not m:
@@ -395,9 +526,11 @@ def search_scenario(v, unlimited):
     dists = {int(i): fp_to_float(t) for i, t in vals.get("distances", {}).items()}
     if any(d is None for d in dists.values()):
         return None
-    order = sorted(set(dists.values()))
-    rank = {i: order.index(d) for i, d in dists.items()}
+    nan_items = {i for i, d in dists.items() if d != d}
+    order = sorted(set(d for d in dists.values() if d == d))
+    rank = {i: (order.index(d) if d == d else 0) for i, d in dists.items()}
     margins = [fp_to_float(t) for t in vals.get("margins", [])]
+    margins = [None if (m is not None and m != m) else m for m in margins]
     lines = ["dim 2"]
     k = [0]
 
@@ -423,7 +556,8 @@ def search_scenario(v, unlimited):
         emit(sp.f[1])
     emit(pre.root)
     for i in sorted(rank):
-        lines.append(f"raw_item {i} {1.0 + rank[i]:.1f},0.0")
+        # an item whose symbolic distance is NaN gets a NaN coordinate (Euclidean distance NaN)
+        lines.append(f"raw_item {i} NaN,0.0" if i in nan_items else f"raw_item {i} {1.0 + rank[i]:.1f},0.0")
     root_t = z3.simplify(pre.root.f[1]).as_long()
     roots = [root_t]
     if "+bucket tree" in v["shape"]:
